@@ -510,7 +510,7 @@ func main() {
 	e.h = vgirpc.NewHttpServer(e.hsrv)
 	e.h.SetProducerBatchLimit(1)
 
-	reps := r.N(1, 160) // the table is finite; thorough repeats it with other fail-at turns and regenerated RpcErrors
+	reps := r.N(1, 400) // the table is finite; thorough repeats it with other fail-at turns and regenerated RpcErrors
 	for rep := 0; rep < reps; rep++ {
 		if rep > 0 {
 			buildTable(r, uint64(rep)) // fresh RpcError messages / kinds
@@ -570,4 +570,3 @@ func main() {
 
 	realFrameworkErrors(r)
 }
-
